@@ -3,6 +3,7 @@ package props
 import (
 	"errors"
 	"fmt"
+	"net"
 	"sync/atomic"
 	"time"
 
@@ -24,7 +25,7 @@ func c15Options() []rigOpts {
 			for _, realClock := range []bool{false, true} {
 				for _, fb := range []bool{false, true} {
 					for rtoMode := 0; rtoMode < 3; rtoMode++ {
-						for errMode := 0; errMode < 4; errMode++ {
+						for errMode := 0; errMode < 5; errMode++ {
 							for _, defAgent := range []bool{false, true} {
 								if defAgent && (errMode == 1 || errMode == 3) {
 									continue // the agent Close error is injected through the tapping agent
@@ -43,6 +44,9 @@ func c15Options() []rigOpts {
 									o.connCloseErr = errInjectedConnClose
 								case 3:
 									o.agentCloseErr, o.connCloseErr = errInjectedAgentClose, errInjectedConnClose
+								case 4:
+									// what a real net.Conn answers to a second close
+									o.connCloseErr = &net.OpError{Op: "close", Net: "udp", Err: net.ErrClosed}
 								}
 								out = append(out, o)
 							}
